@@ -81,7 +81,7 @@ claim("C02", "DESIGN.md 5/C02", "Lean 4 theorems (the run computes a solution of
       "(an acyclic graph has at most one such assignment: its evaluation), results_order_independent (any permutation of the commands gives the same results), "
       "results_unaffected_by_added_commands. Metadata never reaches compute of the data commands (DataCmd has no such field). Each real execute call made while running "
       "random typed EEMS models is replayed on the model's exec with its actual inputs; order/metadata/consumer invariance is evaluated on the real programs; every EEMSRead of a model "
-      "is compared with the column its file holds at that moment (files are rewritten between models; values close to the missing-value marker are data); a 450-step model written in dependency order is evaluated.", PB)
+      "is compared with the column its file holds at that moment (files are rewritten between models; values close to the missing-value marker are data); a 450-step model written in dependency order is evaluated, and two models with hand-computed results are run in all 120 orders of their commands.", PB)
 claim("C12", "DESIGN.md 5/C12", "Lean 4 iff-characterisations of load and pre-pass acceptance + fault-injection matrix correspondence + by-construction expectation oracles",
       "Theorems in MPilot.C12: addCommand_ok_iff (accepted by add_command iff result name fresh, required parameters present, no undeclared parameter unless extras allowed), "
       "addCommand_errors / unknown_command (specific error with the offender's line, in the code's order), prepassCmd_ok_iff (pre-pass accepts iff every declared argument cleans), "
